@@ -61,6 +61,8 @@ def gen_repair_case(rng, scripted_ok=True):
                 X[i, j] = Xb[i, j] if rng.random() < 0.3 else min(max(xl[j] + rng.random() * (xu[j] - xl[j]), xl[j]), xu[j])
     name = rng.choice(list(NAMES))
     case = {"name": name, "seed": rng.randrange(2 ** 31), "X": enc(X), "Xb": enc(Xb), "xl": enc(xl), "xu": enc(xu), "kinds": kinds}
+    if rng.random() < 0.3:
+        case["prime"] = rng.choice(["upper", "lower", "both"])
     if scripted_ok and name in ("bounce-back", "rand-init") and rng.random() < 0.35:
         case["script_vals"] = [rng.choice([0.0, gens.ONE_M, 0.5, 2.0 ** -53, 2.0 ** -1074]).hex() for _ in range(2 * n * v)]
     return case
@@ -129,7 +131,7 @@ class C11(Check):
     IMPORTS = "From PV Require Import Model.Repair Model.Mutate."
     RULE = ("repair functions of dem.py called on X.copy() with generated mutant matrices (coordinates below / above / on / inside "
             "the bounds; zero-width, 1-ulp, tiny and asymmetric ranges; bases on bounds), draws recorded or scripted "
-            "(0, 2^-1074, 2^-53, 0.5, 1-2^-53); one case in four goes through DifferentialMutation.do on a bounded problem (scalar F, no jitter, "
+            "(0, 2^-1074, 2^-53, 0.5, 1-2^-53); 30% of the calls follow a call of the same repair on a box of the same shape with a different upper / lower / both bounds; one case in four goes through DifferentialMutation.do on a bounded problem (scalar F, no jitter, "
             "ranges of very different width, some nested in each other; integer-coded int64 populations on half-integral boxes; operator objects that have served a wider box before) and is judged against the unrepaired mutants of the same call on an "
             "unbounded problem; non-trivial = at least one coordinate violates a bound; distinct by hash of the case")
     ASSUMPTIONS = ["exact-arithmetic theorem (Q); rounding is covered only by the bit-exact runs and the float oracle",
@@ -149,6 +151,12 @@ class C11(Check):
         xl, xu = decarr(case["xl"]), decarr(case["xu"])
         Xb0, xl0, xu0 = Xb.copy(), xl.copy(), xu.copy()
         vals = [float.fromhex(h) for h in case["script_vals"]] if "script_vals" in case else None
+        if case.get("prime"):
+            # the same repair has just been used on a box of the same shape that shares one of its bounds (or none) with this one
+            w = 1.0 + np.abs(xu - xl)
+            pl = xl - (w if case["prime"] in ("lower", "both") else 0.0); pu = xu + (w if case["prime"] in ("upper", "both") else 0.0)
+            np.random.seed(case.get("seed", 1) + 7)
+            REPAIRS[case["name"]](X.copy(), Xb.copy(), pl, pu)
         np.random.seed(case.get("seed", 1))
         with Recorder(rand_values=vals) as rec:
             Z = REPAIRS[case["name"]](X.copy(), Xb, xl, xu)
@@ -184,6 +192,7 @@ class C11(Check):
         if np.any(X > xu): out.append("upper-violation")
         if np.any(xl == xu): out.append("zero-width")
         if "script_vals" in case: out.append("scripted-draws")
+        if case.get("prime"): out.append("after-call-on-other-box")
         if not (np.any(X < xl) or np.any(X > xu)): out.append("no-violation")
         return out
 
